@@ -117,6 +117,11 @@ def create (dev : Bool) (blob : Option Bytes) : Engine :=
     | none => e
   e.setFixedKeys
 
+/-- PyCryptodome AES-CBC decryption of whole blocks (title keys are one block) -/
+def cbcDecBlocks (D : Bytes → Bytes → Bytes) (key iv data : Bytes) : Bytes :=
+  (List.range (data.length / 16)).flatMap fun j =>
+    xorBytes (D key (slice data (16 * j) 16)) (if j = 0 then iv else slice data (16 * (j - 1)) 16)
+
 /-- `load_encrypted_titlekey(titlekey, common_key_index, title_id)`; `D key block` is AES-128 block decryption.
     Returns the engine as the call leaves it (a raising call may already have set the common KeyY) and the error. -/
 def loadEncryptedTitlekey (D : Bytes → Bytes → Bytes) (e : Engine) (titlekey : Bytes) (idx : Nat) (titleId : Bytes) :
@@ -136,10 +141,7 @@ def loadEncryptedTitlekey (D : Bytes → Bytes → Bytes) (e : Engine) (titlekey
       if iv.length ≠ 16 then (e1, some .valueError)
       else if titlekey.length % 16 ≠ 0 then (e1, some .valueError)
       else
-        -- CBC decryption (title keys are one block)
-        let dec := (List.range (titlekey.length / 16)).flatMap fun j =>
-          xorBytes (D ck (slice titlekey (16 * j) 16)) (if j = 0 then iv else slice titlekey (16 * (j - 1)) 16)
-        (e1.setNormal 0x40 dec, none)
+        (e1.setNormal 0x40 (cbcDecBlocks D ck iv titlekey), none)
 
 /-- `load_from_ticket` -/
 def loadFromTicket (D : Bytes → Bytes → Bytes) (e : Engine) (ticket : Bytes) : Engine × Option Err :=
